@@ -111,6 +111,14 @@ def build_jobs(tier, seed, stats, want_ops=True):
                            "res": {"kind": "raise", "cls": type(ex).__name__, "valueerror": isinstance(ex, ValueError)}})
                     continue
                 steps.ev_apply(b, rd, di, st2, tag="json")
+            for _ in range(15):
+                st = sg.around_with_flat_gap(rd)
+                if st is not None:
+                    steps.ev_apply(b, rd, di, st, tag="around")
+            for _ in range(40):
+                st = sg.around_wrap_extended(rd)
+                if st is not None:
+                    steps.ev_apply(b, rd, di, st, tag="wrapx")
             if want_ops:
                 # steps emitted by high-level operations
                 from prosemirror.transform import Transform
